@@ -1,0 +1,12 @@
+//! Verification hooks. Only compiled with the `verif-hooks` feature, which nothing enables by default.
+//! They give the counterexample replay of /verif a public entry to code that is otherwise crate-private.
+
+use crate::local::timezone::TimeZone;
+
+/// Parses TZif bytes and resolves the UTC offset (in seconds) for a Unix timestamp.
+/// `Err` carries the parser's message.
+pub fn tz_lookup(bytes: &[u8], timestamp: i64) -> Result<i32, String> {
+    TimeZone::from_tzif(bytes)
+        .map(|time_zone| time_zone.to_local_time_type(timestamp).utoff)
+        .map_err(|error| error.to_string())
+}
